@@ -1,11 +1,13 @@
 // Driver for C16 (definition migration yields valid, equivalent, stable flows).
 //
 // Streams (all choices derive from the one PRNG seeded by -seed):
-//   corpus    the inputs of DESIGN.md section 5 (F12, F19a, F19b) and the ones found since, first
-//   valid13   generated definitions valid at 13.0 .. 13.5 (gen.go), migrated directly and stepwise
-//   current   generated definitions at the current version
-//   legacy    legacy definitions composed from goflow's legacy testdata (legacy.go)
-//   malformed mutated / truncated / random documents (malformed.go), under recover()
+//
+//	corpus    the inputs of DESIGN.md section 5 (F12, F19a, F19b) and the ones found since, first
+//	valid13   generated definitions valid at 13.0 .. 13.5 (gen.go), migrated directly and stepwise
+//	current   generated definitions at the current version
+//	legacy    legacy definitions composed from goflow's legacy testdata (legacy.go)
+//	malformed mutated / truncated / random documents (malformed.go), under recover()
+//
 // For every input the sentence of C16 is evaluated directly on what the implementation returns (oracle.go);
 // the valid13/current/legacy inputs are also written to cases_C16_*.v for the Coq model (model/Migrate.v).
 package main
@@ -34,8 +36,16 @@ type recGen struct {
 	got   []string
 }
 
-func (g *recGen) NextV4() uuids.UUID { u := g.inner.NextV4(); g.got = append(g.got, string(u)); return u }
-func (g *recGen) NextV7() uuids.UUID { u := g.inner.NextV7(); g.got = append(g.got, string(u)); return u }
+func (g *recGen) NextV4() uuids.UUID {
+	u := g.inner.NextV4()
+	g.got = append(g.got, string(u))
+	return u
+}
+func (g *recGen) NextV7() uuids.UUID {
+	u := g.inner.NextV7()
+	g.got = append(g.got, string(u))
+	return u
+}
 
 func withUUIDs(seed int64, fn func(rg *recGen)) {
 	rg := &recGen{inner: uuids.NewSeededGenerator(seed, time.Now)}
@@ -246,6 +256,7 @@ func (d *driver) runValid(stream string, gd *gdef, r *hx.Rand, seed int64, emit 
 	// 13.3: what each rewritten template evaluates to
 	if gd.VIdx <= 2 {
 		checkTemplateMeaning(res, r, x, fail)
+		checkTemplatePositions(res, x, fail)
 	}
 
 	// stepwise through a random ascending chain of target versions ending at the current one
